@@ -647,6 +647,18 @@ class Interp(Hooks):
         return out
 
     def call_term(self, c: ast.Call, d: AState) -> str:
+        if isinstance(c.func, ast.Name) and isinstance(d.vars.get(c.func.id), str) and _re.fullmatch(r"\$\w+(\.\w+){2,}", d.vars[c.func.id]) and not getattr(c, "_spelled", False):
+            try:
+                fexpr = ast.parse(d.vars[c.func.id][1:], mode="eval").body
+                call2 = ast.copy_location(ast.Call(func=fexpr, args=c.args, keywords=c.keywords), c)
+                ast.fix_missing_locations(call2)
+                for n_ in ast.walk(call2.func):
+                    n_._origin = self.entry
+                call2._origin = getattr(c, "_origin", None)
+                call2._spelled = True
+                return self.call_term(call2, d)
+            except SyntaxError:
+                pass
         fn = c.func
         name = call_name(c)
         ep = d.epoch
@@ -2194,6 +2206,21 @@ def _engine_transfer(self: Engine, st: PState, stmt: ast.stmt, _ret: bool) -> No
 
 def _engine_call_effect(self: Engine, st: PState, c: ast.Call) -> None:
     d: AState = st.data
+    # f(...) where the local / parameter f holds a bound method reached from a parameter: the call written out
+    if isinstance(c.func, ast.Name) and isinstance(d.vars.get(c.func.id), str) and _re.fullmatch(r"\$\w+(\.\w+){2,}", d.vars[c.func.id]) and not getattr(c, "_spelled", False):
+        try:
+            fexpr = ast.parse(d.vars[c.func.id][1:], mode="eval").body
+        except SyntaxError:
+            fexpr = None
+        if fexpr is not None:
+            call2 = ast.copy_location(ast.Call(func=fexpr, args=c.args, keywords=c.keywords), c)
+            ast.fix_missing_locations(call2)
+            for n_ in ast.walk(call2.func):
+                n_._origin = self.entry
+                ast.copy_location(n_, c)
+            call2._origin = getattr(c, "_origin", None)
+            call2._spelled = True
+            return self.call_effect(st, call2)
     name = call_name(c)
     fn = c.func
     self.scan_query(st, c)
